@@ -73,11 +73,14 @@ fn ref_unit_dev(fam: usize, y: f64, mu: f64) -> f64 {
 fn has_disp(fam: usize) -> bool { matches!(fam, 0 | 2 | 4) }
 fn canonical(fam: usize) -> bool { fam <= 3 }
 
-fn problem(r: &mut Rng, fam: usize, n: usize, p: usize, dkind: usize, wkind: usize, with_off: bool, alpha: f64, tol: f64) -> Prob {
+fn problem(r: &mut Rng, fam: usize, n: usize, p: usize, dkind: usize, wkind: usize, with_off: bool, alpha: f64, tol: f64) -> Prob { problem_mode(r, fam, n, p, dkind, wkind, with_off, alpha, tol, 0) }
+/// mode 1: slopes of order one in every column (strong signal: the information matrix is far from diagonal, so the inner solve pivots);
+/// mode 2: exposure offsets log(100..800) with counts in the hundreds (log-link families)
+fn problem_mode(r: &mut Rng, fam: usize, n: usize, p: usize, dkind: usize, wkind: usize, with_off: bool, alpha: f64, tol: f64, mode: u8) -> Prob {
     let x = design_matrix(r, n, p, dkind);
-    let mut beta: Vec<f64> = (0..p).map(|_| r.uniform(-1.5, 1.5) / ((p.max(2) - 1) as f64).sqrt()).collect();
+    let mut beta: Vec<f64> = (0..p).map(|_| r.uniform(-1.5, 1.5) / if mode == 1 { 1.0 } else { ((p.max(2) - 1) as f64).sqrt() }).collect();
     beta[0] = r.uniform(-1.0, 1.0);
-    let off = if with_off { Some((0..n).map(|_| r.uniform(-0.5, 0.5)).collect::<Vec<f64>>()) } else { None };
+    let off = if mode == 2 { Some((0..n).map(|_| r.uniform((100.0f64).ln(), (800.0f64).ln())).collect::<Vec<f64>>()) } else if with_off { Some((0..n).map(|_| r.uniform(-0.5, 0.5)).collect::<Vec<f64>>()) } else { None };
     let w = match wkind { 0 => None, 1 => Some((0..n).map(|_| r.range(1, 3) as f64).collect::<Vec<f64>>()), _ => Some((0..n).map(|_| r.uniform(0.5, 2.0)).collect::<Vec<f64>>()) };
     let mut y = vec![0.0; n];
     for i in 0..n {
@@ -180,7 +183,9 @@ pub fn oracle(tier: &str, seed: u64) -> (u64, Vec<Finding>) {
         let tol = 10f64.powi(-(5 + r.below(10) as i32));
         let wkind = [0, 0, 1, 2][r.below(4) as usize];
         let (dk, wo) = (r.below(4) as usize, r.coin(0.4));
-        let pr = problem(&mut r, fam, n, p, dk, wkind, wo, alpha, tol);
+        let mode: u8 = if it % 10 == 3 && fam >= 2 { 1 } else if it % 10 == 7 && fam >= 2 { 2 } else { 0 };
+        let (n, p) = if mode == 1 { (300, 6) } else { (n, p) };
+        let pr = problem_mode(&mut r, fam, n, p, if mode == 1 { 0 } else { dk }, wkind, wo, alpha, tol, mode);
         let inp = pr.describe();
         let wtag = if pr.wkind == 0 { "" } else { "weighted:" };
         tried += 1;
@@ -196,7 +201,10 @@ pub fn oracle(tier: &str, seed: u64) -> (u64, Vec<Finding>) {
         if coef.iter().any(|c| !c.is_finite()) { add(&mut out, "status:ok-with-nonfinite-coefficients", format!("fit returned Ok with coefficients {:?}", coef), inp.clone()); continue; }
         // the quantifier is over data for which the MLE exists (|beta| <= 1.5): a (quasi-)separated sample drives the
         // coefficients off to infinity until the deviance stops changing; such fits are outside the property
-        if coef.iter().any(|c| c.abs() > 10.0) { continue; }
+        // (Bernoulli only: for the other families the simulated data always have a finite MLE near the generating coefficients, and a
+        //  diverging coefficient of a count model drives its own score to 0, so the check below is still satisfied)
+        let diverged = coef.iter().any(|c| c.abs() > 10.0);
+        if fam == 1 && diverged { continue; }
         let tf = tolfac(fam, tol);
         // (b) penalised score equations at the returned coefficients
         let (s, sc) = ref_score(&pr, &coef);
@@ -206,6 +214,9 @@ pub fn oracle(tier: &str, seed: u64) -> (u64, Vec<Finding>) {
                     format!("score equation {} at the returned coefficients: X^T W (y-mu) dmu/var - alpha*beta (intercept unpenalised) = {:e}, magnitude of its terms {:e}, allowed {:e} (coef {:?})", j, s[j], sc[j], tf * sc[j].max(1.0), coef), inp.clone());
             }
         }
+        // a diverged coefficient (an indicator column with all-zero counts, say) leaves a numerically singular information matrix: the score
+        // equation above is the property's claim there; deviance / standard errors / predictions are not compared on such fits
+        if diverged { continue; }
         // (c) Gaussian: (weighted, ridge) least squares
         if fam == 0 {
             let mut a = vec![0.0; p * p]; let mut b = vec![0.0; p];
